@@ -75,6 +75,22 @@ def run(chk):
         else:
             chk.violation("C18.readtimer", a, "await self._continue", "protocol.start_timeout() before the wait",
                           "the read timer is started only after the body was written, i.e. after the wait for `100 Continue`: with expect100=True a server that never answers is waited for without any bound by sock_read")
+        # ... and it is that wait's timer only: while the body is uploaded the peer is reading, not writing, so a sock_read timer still running
+        # from the wait would end a slow but healthy upload (it is started again when the request is fully sent)
+        gw = cfg_of(wb.node)
+        arms = K.nodes_matching(wb, "$P.start_timeout()")
+        drops = K.nodes_matching(wb, "$P._drop_timeout()")
+        hts = [n_ for n_ in gw.nodes if n_.kind == "test" and "_read_timeout_handle" in norm.raw(n_.ast)]
+        ups = [n_ for n_ in gw.nodes if K.node_has(n_, "$B.write_with_length(writer, $L)")]
+        if arms and ups:
+            p1 = gw.find_path(arms, lambda n_: n_ in ups, lambda n_: n_ in drops or n_ in hts, EXPLICIT)
+            p2 = gw.find_path(None, lambda n_: n_ in ups, lambda n_: n_ in drops, EXPLICIT, start_edges=[(t_, "T") for t_ in hts]) if hts else None
+            if p1 is None and p2 is None:
+                chk.ok("C18.readtimer", drops[0].ast if drops else a, "the timer armed for the `100 Continue` wait is dropped before the body is uploaded (unless input re-armed it meanwhile)")
+            else:
+                chk.violation("C18.readtimer", ups[0].ast, K.short(ups[0].ast, 60), "if protocol._read_timeout_handle is <the handle armed for the wait>: protocol._drop_timeout()",
+                              "the sock_read timer armed for the `100 Continue` wait keeps running while the body is uploaded: with expect100=True an upload that takes longer than sock_read fails with SocketTimeoutError although the server is reading all the time",
+                              path=gw.fmt_path(p1 or p2))
         # RFC 9110 10.1.1: a client SHOULD NOT wait for 100 (Continue) for an indefinite period - many servers (HTTP/1.0, or without expectation
         # handling: aiohttp's own web.Server) never send it, and with sock_read unset only the total timeout would end the wait
         v = a.value
